@@ -152,6 +152,20 @@ for _m in ("copy", "lzma", "lzma2"):
         LAYOUTS.append((f"7z-{_m}-{'solid' if _solid else 'folder-per-file'}", "a.7z",
                         (lambda e, m=_m, s=_solid: write7z(e, m, s))))
 
+def write_tar_multistream(entries, kind):
+    """a compressed TAR whose compressed file is a concatenation of two streams (pbzip2 / pixz / appended gzip members),
+    cut at a 512-byte block boundary in the middle of the archive"""
+    import bz2
+    import gzip
+    raw = write_tar(entries, "w")
+    cut = max(512, (len(raw) // 1024) * 512)
+    comp = {"gz": gzip.compress, "bz2": bz2.compress, "xz": lzma.compress}[kind]
+    return comp(raw[:cut]) + comp(raw[cut:])
+
+
+LAYOUTS += [("tar.gz-two-streams", "a.tar.gz", lambda e: write_tar_multistream(e, "gz")),
+            ("tar.bz2-two-streams", "a.tar.bz2", lambda e: write_tar_multistream(e, "bz2")),
+            ("tar.xz-two-streams", "a.tar.xz", lambda e: write_tar_multistream(e, "xz"))]
 LAYOUTS += [("tar-gnu", "a.tar", lambda e: write_tar(e, "w", tarfile.GNU_FORMAT)), ("tar-ustar", "a.tar", lambda e: write_tar(e, "w", tarfile.USTAR_FORMAT)),
             ("tar.gz-gnu", "a.tar.gz", lambda e: write_tar(e, "w:gz", tarfile.GNU_FORMAT)),
             ("7z-copy-blocks-of-2", "a.7z", lambda e: write7z(e, "copy", group=2)), ("7z-lzma2-blocks-of-2", "a.7z", lambda e: write7z(e, "lzma2", group=2)),
@@ -205,11 +219,30 @@ def member_sets():
     yield many
     yield [("deep/" * 12 + "n" * 90 + ".txt", b"long name"), DOCS[0]]                      # a name longer than 127 UTF-16 units
     yield [(f"f{i:03d}.txt", f"{i}".encode()) for i in range(130)]                          # >= 128 entries: two-byte NUMBERs for counts
+    # the same member name listed more than once (append-mode updates): every listed entry keeps its own bytes
+    yield [("notes.txt", b"first version"), DOCS[0], ("notes.txt", b"second version, longer"), ("sub/b.md", b"# other bravo"), DOCS[1]]
+    # absolute member names (tar -P, writestr with a full path): still labelled archive!/member
+    yield [("/srv/share/report.txt", b"absolute"), DOCS[0], ("/abs.md", b"# abs")]
 
 
 def observe(r):
     m = r.get_metadata()
     return [m.filename, m.file_path, json.loads(json.dumps(r.to_json(), default=repr, sort_keys=True))]
+
+
+def member_limit():
+    from sharepoint2text.parsing.extractors import archive_extractor as ae
+    return ae._config.max_memory_size
+
+
+def only_layouts(entries):
+    """layout filter of the special member sets (None = every layout)"""
+    names = [n for n, _d in entries]
+    if len(names) != len(set(names)) or any(n.startswith("/") for n in names):
+        # duplicate member names / absolute member names: ZIP and TAR keep them as they are; a 7z extraction to disk cannot
+        # (ambiguous or unsafe paths are rejected by the reader by design)
+        return lambda l: not l.startswith("7z")
+    return None
 
 
 def expected(entries, archive_name, with_origin=False):
@@ -223,6 +256,8 @@ def expected(entries, archive_name, with_origin=False):
         if base.startswith(".") or name.startswith("__MACOSX/") or not is_supported_file(base):
             continue
         if base.lower().endswith((".zip", ".tar", ".tar.gz", ".tgz", ".tar.bz2", ".tbz2", ".tar.xz", ".txz", ".7z")):
+            continue
+        if len(data) > member_limit():              # members above the configured per-member limit are skipped (C12)
             continue
         try:
             res = list(get_extractor(base)(io.BytesIO(data), path=f"{archive_name}!/{name}"))
@@ -285,6 +320,9 @@ def matrix(layout_filter=None, sets=None, skip_recorded=True):
             if skip_recorded and recorded(label, entries):
                 continue
             if len(entries) > 50 and label not in BIG_SET_LAYOUTS:        # the 130-entry set: one layout per container / coder family
+                continue
+            lf = only_layouts(entries)
+            if lf is not None and not lf(label):
                 continue
             data = build(entries)
             got, err = run_archive(data, aname)
@@ -572,6 +610,20 @@ def check_files_info():
     return None
 
 
+def check_member_size_limit():
+    """members above the per-member limit (lowered through the public configure_archive_extraction) are skipped, every other
+    member -- in particular the ones stored AFTER an oversized one in the same solid 7z folder -- still comes out as itself"""
+    from sharepoint2text.parsing.extractors import archive_extractor as ae
+    old = ae._config
+    entries = [("small.txt", b"small"), ("big1.txt", b"B" * 3000), ("after.txt", b"after the big one"), ("sub/big2.md", b"# " + b"M" * 5000),
+               ("last.csv", b"a,b\n1,2\n")]
+    try:
+        ae.configure_archive_extraction(max_memory_size=1000)
+        return matrix(None, [entries])
+    finally:
+        ae._config = old
+
+
 def check_7z_large_solid():
     """a solid LZMA2 folder larger than common window sizes, written with a 32 MiB dictionary (7-Zip: 16 MiB at -mx=5, 64 MiB at -mx=9),
     whose last member repeats the beginning of the first one (a match reaching back > 8 MiB): every member's own bytes come out"""
@@ -663,7 +715,7 @@ def find(req):
     ob = req.get("obligation", "") or ""
     checks = []
     ALL = [check_read_number, check_bool_vector, check_bool_vector_defined, check_pack_info, check_files_info, check_detect, check_7z_bytes,
-           check_tar_member_read_failure, matrix, check_7z_large_solid]
+           check_tar_member_read_failure, matrix, check_member_size_limit, check_7z_large_solid]
     if "native-scope" in ob:
         checks = ALL
     elif "_read_number" in ob or "_read_uint" in ob or "_read_bytes" in ob:
@@ -677,11 +729,11 @@ def find(req):
     elif "_parse_pack_info" in ob:
         checks = [check_pack_info, check_7z_bytes, lambda: matrix(lambda l: l.startswith("7z"))]
     elif "extractall" in ob or "_decompress_folder" in ob:
-        checks = [lambda: finding("F10-one-folder-per-file"), lambda: matrix(lambda l: l.startswith("7z"))]
+        checks = [lambda: finding("F10-one-folder-per-file"), lambda: matrix(lambda l: l.startswith("7z")), check_member_size_limit]
     elif "empty-file-is-not-a-directory" in ob:
         checks = [lambda: finding("F25-7z-empty-file-taken-for-directory")]
     elif "_build_file_list" in ob or "_extract_files_from_folder" in ob or "_parse_" in ob or "_7z" in ob:
-        checks = [check_7z_bytes, lambda: matrix(lambda l: l.startswith("7z"))]
+        checks = [check_7z_bytes, lambda: matrix(lambda l: l.startswith("7z")), check_member_size_limit]
     elif "outside-F26" in ob:
         # the clause that EXCLUDES the recorded class F26: its own witness does not count
         checks = [check_detect, lambda: matrix(lambda l: l.startswith("tar"))]
